@@ -1,18 +1,28 @@
 """Per-property claims (source of MANIFEST.json; tools/gen_manifest.py renders it)."""
 HOOK_COMMITS = []
 ENGINES = [
-    {"name": "lean-model", "path": "lean/", "serves_properties": ["C16"],
+    {"name": "lean-model", "path": "lean/", "serves_properties": ["C16", "C20"],
      "kind_free_text": "Lean 4 library Dbus (Spec, Model, Proofs, Props) + compiled line-protocol driver dbus-model"},
-    {"name": "tabulator", "path": "gen/", "serves_properties": ["C16"],
+    {"name": "tabulator", "path": "gen/", "serves_properties": ["C16", "C20"],
      "kind_free_text": "C translation units that #include repo sources and print finite tables; rendered to lean/Dbus/Generated"},
-    {"name": "h-lib", "path": "harness/lib/", "serves_properties": ["C16"],
+    {"name": "h-lib", "path": "harness/lib/", "serves_properties": ["C16", "C20"],
      "kind_free_text": "in-process C harnesses linked against the ASan/UBSan build of the working tree"},
 ]
 PENDING = "not implemented yet in this round (planned, see DESIGN.md §4/§7); no check is claimed"
 NOT_APPLICABLE = {p: PENDING for p in
                   ["C01", "C02", "C03", "C04", "C05", "C06", "C07", "C08", "C09", "C10", "C11", "C12", "C13", "C14", "C15",
-                   "C17", "C18", "C19", "C20"]}
+                   "C17", "C18", "C19"]}
 CHECKS = {
+    "C20": {
+        "text": "Proved in Lean for every history of register / register-fallback / unregister: the sorted trie with intermediate-node "
+                "creation and leaf pruning refines the specification's registration map (tree_refines_set: well-formedness kept, abstraction "
+                "commutes, occupied registration fails without change), handlers are tried in exactly the specified order "
+                "(dispatch_order_eq_spec), invocation stops at the first taker, and the UnknownMethod/UnknownObject choice is characterised "
+                "structurally with the stale/initial invoke_as_fallback flag (known finding K3) named explicitly. The model is tied to "
+                "dbus-object-tree.c + dbus_connection_dispatch by scripted differential histories over a real connection pair "
+                "(handler invocation order, error name, child listing, user data).",
+        "note": "Not proved: that a trie node exists exactly for prefixes of registrations (no-dead-leaf invariant) — compared by the K-tie through list/data operations.",
+    },
     "C16": {
         "text": "Proved in Lean for all byte strings: each validator model accepts exactly the specification grammar "
                 "(validateMember/Interface/ErrorName/Path/Utf8/BusNamespace_iff; validateBusName_iff and validateSignature_iff with the two "
